@@ -54,7 +54,7 @@ func (w *addrWorld) names() []string {
 const c14NameCount = 41
 
 var c14Types = []string{"eventlog", "keyvalue", "docstore"}
-var c14Lists = []string{"none", "self", "A", "A,B", "B,A", "*"}
+var c14Lists = []string{"none", "self", "A", "A,B", "B,A", "*", "A,*", "*,B", "A,A"}
 
 func (w *addrWorld) params(list string, self int) (accesscontroller.ManifestParams, []string) {
 	ids := map[string]string{"A": w.P[1].DB.Identity().ID, "B": w.P[2].DB.Identity().ID, "*": "*", "self": w.P[self].DB.Identity().ID}
@@ -287,7 +287,7 @@ func runC14Uniqueness() (string, []explore.Violation) {
 func init() {
 	explore.Register(&explore.CheckDef{
 		ID: "C14", Level: "exploration",
-		Rule:   "full cross product: 41 names (ascii, rooted and trailing-slash forms, case, spaces, nested, empty, dot and parent-directory segments, unicode, control characters, names that are or contain the manifest address of another database, 300 characters) x 3 registered types x 6 write lists (none, creator, one id, two ids in both orders, wildcard) on three peers with different identities; restricted to inputs DetermineAddress/Create accept. Oracle: same inputs give the same address on every peer; pairwise different inputs give different addresses (all pairs of the enumerated set) and never the root of an unrelated database; the printed address parses back to the same root and path; Create returns the determined address; Open on another peer yields the recorded type and the given write list; local-only open of an unknown database (plain, with Create set, and through the typed openers) and Create over an existing one (also with a Directory option naming another directory) are refused, Create with overwrite succeeds; every ordered pair of 4 databases with different write lists opened through one reused options value keeps its own type and list. Non-trivial = accepted inputs other than the plain name.",
+		Rule:   "full cross product: 41 names (ascii, rooted and trailing-slash forms, case, spaces, nested, empty, dot and parent-directory segments, unicode, control characters, names that are or contain the manifest address of another database, 300 characters) x 3 registered types x 9 write lists (none, creator, one id, two ids in both orders, wildcard, wildcard next to an id in both positions, a repeated id) on three peers with different identities; restricted to inputs DetermineAddress/Create accept. Oracle: same inputs give the same address on every peer; pairwise different inputs give different addresses (all pairs of the enumerated set) and never the root of an unrelated database; the printed address parses back to the same root and path; Create returns the determined address; Open on another peer yields the recorded type and the given write list; local-only open of an unknown database (plain, with Create set, and through the typed openers) and Create over an existing one (also with a Directory option naming another directory) are refused, Create with overwrite succeeds; every ordered pair of 4 databases with different write lists opened through one reused options value keeps its own type and list. Non-trivial = accepted inputs other than the plain name.",
 		Units:  func(tier string) []explore.Unit { return explore.ChunkUnits("c14", 16) },
 		Budget: func(tier string) float64 { return 400 },
 		RunUnit: func(c *explore.Ctx) {
